@@ -92,7 +92,42 @@ func (i *insertExecutor) beforeImage(ctx context.Context) (*types.RecordImage, e
 		return nil, err
 	}
 	nameColumnsOfTable(i.parserCtx.InsertStmt, metaData)
+	if err := i.checkKeysGivenOrGenerated(metaData); err != nil {
+		return nil, err
+	}
 	return types.NewEmptyRecordImage(metaData, types.SQLTypeInsert), nil
+}
+
+// checkKeysGivenOrGenerated refuses, before it runs, a multi-row INSERT that gives some of the values of a key
+// column and leaves the others to the database (NULL, DEFAULT, 0 for an AUTO_INCREMENT column). The keys of such
+// rows cannot be told from the statement and the first generated id the result reports: the counter jumps past a
+// given value. Recorded under guessed keys, rows of the statement would miss their lock and their undo image.
+func (i *insertExecutor) checkKeysGivenOrGenerated(metaData *types.TableMeta) error {
+	if !i.isAstStmtValid() || len(i.parserCtx.InsertStmt.Lists) < 2 {
+		return nil
+	}
+	pkValues, err := i.parsePkValuesFromStatement(i.parserCtx.InsertStmt, *metaData, i.execContext.NamedValues)
+	if err != nil {
+		return nil // (the key column is not in the statement, or the statement is one afterImage reports)
+	}
+	for name, values := range pkValues {
+		columnMeta, ok := metaData.GetPrimaryKeyMap()[name]
+		if !ok {
+			continue
+		}
+		given, generated := 0, 0
+		for _, value := range values {
+			if value == nil || (columnMeta.Autoincrement && isZeroKey(value)) {
+				generated++
+			} else {
+				given++
+			}
+		}
+		if given > 0 && generated > 0 {
+			return fmt.Errorf("not support: an INSERT that gives %d of the values of the key column %s and leaves %d to the database", given, name, generated)
+		}
+	}
+	return nil
 }
 
 // afterImage build after image
